@@ -7,10 +7,14 @@ sys.path.insert(0, os.path.join(os.path.dirname(os.path.dirname(os.path.abspath(
 import gen_samples as G  # noqa
 
 PROP = "C01"
-AREAS = ["kmer", "segment", "pipeline"]
+AREAS = ["kmer", "segment", "pipeline", "groupstore", "tuple", "lz", "collection"]   # the last four: composition theorems
 THEOREMS = ["rc_seq_eq_rc_dec", "rc_pre_eq_rc_dec", "rc_dec_involutive", "orient_ok", "split_overlap",
             "part_numbers_dense", "reassemble", "placement_order_irrelevant", "duplicate_name_rejected",
-            "create_extract_roundtrip"]
+            "create_extract_roundtrip",
+            # composition (proofs/Compose_codecs.v, proofs/Compose_proofs.v): C09 + C12 + C02 + C01 end to end
+            "codecs_instance", "codecs_instance_total", "store_then_get_concrete", "stored_ok_from_groupstore",
+            "end_to_end_roundtrip", "store_addr_consistent", "ops_rounds_carry", "pieces_in_dom_from_inputs",
+            "end_to_end_inputs", "end_to_end_store_addr", "end_to_end_catalogue"]
 PROFILES = ["dev", "release"]
 PROFILES_QUICK = ["dev"]
 RULE = ("trace validation on real archives: case `dt <dir> <params>` = a sample set laid out as FASTA files, compressed by "
@@ -35,7 +39,11 @@ ASSUMPTIONS = ["1 <= k <= 32 (C10's range; Kmer::new overflows its shift beyond)
                "group store under it (the group-store half of C01); checked per archive by comparing the decoded stored bytes",
                "inputs_ok: sample names distinct and non-empty, every sample has at least one contig "
                "(a repeated contig name in a sample makes create fail: proved, and probed by the dup cases)",
-               "registrations arrive in any order (sched is a permutation); push-time registration is modelled before placement"]
+               "registrations arrive in any order (sched is a permutation); push-time registration is modelled before placement",
+               "composition (end_to_end_inputs): zstd_ok = zd (zc l x) = Some x and x <> [] -> zc l x <> [] (zstd is not modelled); "
+               "symbols 0..30, 2*|contig| + mml < 2^31, mml >= 4, no piece of an empty contig in an LZ group; the catalogue "
+               "is converted record by record to Collection.v's type and goes through C03's store_all/load_all (end_to_end_catalogue); "
+               "the archive is the per-group part lists (C13/C14 not threaded)"]
 CASEROOT = os.path.join(os.path.dirname(os.path.dirname(os.path.abspath(__file__))), ".cache", "c01cases")
 STATS = {}          # case -> statistics dict, harvested from the model lines in canon()
 M64 = (1 << 64) - 1
